@@ -5,6 +5,7 @@ package jd
 func init() {
 	vHarnesses["VerifC15History"] = VerifC15History
 	vHarnesses["VerifC15MapOrder"] = VerifC15MapOrder
+	vHarnesses["VerifC15MapOrderSets"] = VerifC15MapOrderSets
 	vHarnesses["VerifC15Canary"] = VerifC15Canary
 }
 
@@ -133,6 +134,44 @@ func VerifC15MapOrder() {
 	vMapOrder(false)
 	vAssert(r1 == r2, "output depends on map iteration order")
 	vCover("c15.maporder")
+}
+
+// VerifC15MapOrderSets: set / multiset diffs and patches (which count members in Go maps) give
+// the same text when every map is ranged over in insertion order and in reverse order.
+func VerifC15MapOrderSets() {
+	k := [...]int{optSet, optMultiset}[vChoice(2)]
+	opts := vOptions(k)
+	n := vParam("N", 2)
+	a, b := vNumArray(n), vNumArray(n)
+	if vKnown("hash.alias") {
+		vAssumeNoHashAlias(a, b)
+	}
+	which := vChoice(3)
+	f := func() string {
+		d := a.Diff(b, opts...)
+		switch which {
+		case 0:
+			return d.Render()
+		case 1:
+			p, err := vClone(a).Patch(d)
+			if err != nil {
+				return "error"
+			}
+			return p.Json()
+		default:
+			p, err := vClone(b).Patch(b.Diff(a, opts...))
+			if err != nil {
+				return "error"
+			}
+			return p.Json(opts...) + a.Json(opts...)
+		}
+	}
+	r1 := f()
+	vMapReverse(true)
+	r2 := f()
+	vMapReverse(false)
+	vAssert(r1 == r2, "set/multiset output depends on map iteration order")
+	vCover("c15.mapordersets")
 }
 
 // VerifC15Canary must be violated.
